@@ -55,6 +55,7 @@ ASSUMPTIONS = [
 BUDGET = {"quick": 3000, "thorough": 40000}
 REQUIRED_CLASSES = {
     "attempts>=3": 150,
+    "attempts>=12": 40,
     "cap-reached": 150,
     "retried-then-success": 150,
     "propagated-after-retry": 150,
@@ -397,6 +398,8 @@ def _judge(case, obs, calls, es, t_begin, returned, raised, runaway):
     obs.cls(f"attempts={min(n, 5)}{'+' if n >= 5 else ''}", f"end:{reason}")
     if n >= 3:
         obs.cls("attempts>=3")
+    if n >= 12:
+        obs.cls("attempts>=12")
     if reason == "cap" and cap is not None and cap >= 2:
         obs.cls("cap-reached")
     if reason == "success" and m >= 2:
@@ -483,7 +486,7 @@ _opt_bool = st.sampled_from(["omit", True, False])
 @st.composite
 def _case(draw):
     params = {}
-    profile = draw(st.sampled_from(["deep", "deep", "deep", "any", "until-success", "sparse"]))
+    profile = draw(st.sampled_from(["deep", "deep", "deep", "any", "until-success", "sparse", "long"]))
     rus = draw(_opt_bool)
     ctor_rus = draw(st.booleans()) and draw(st.booleans())
     # sys.maxsize is what runner.ShrinkIndex passes to poll "for ever"; it is a number of retries like any other
@@ -500,6 +503,12 @@ def _case(draw):
         retries = draw(st.sampled_from([1, 2, 3, 4, 5, 5]))
         rot = draw(st.sampled_from(["omit", True, True, True, True, False]))
         roe = draw(st.sampled_from([True, True, True, True, True, False, "omit"]))
+    elif profile == "long":  # polling: many unsuccessful attempts in a row (wait-for-recovery, shrink-index, ... retry for minutes)
+        rus = draw(st.sampled_from([True, True, "omit", False]))
+        ctor_rus = ctor_rus and rus is not True
+        retries = draw(st.sampled_from([12, 16, 25, 40, 2**31, sys.maxsize])) if rus is not True else retries
+        rot = draw(st.sampled_from(["omit", True, True, True]))
+        roe = True
     elif profile == "sparse":  # mostly the documented defaults
         keep = draw(st.sampled_from(["none", "none", "retries", "wait", "rot", "roe", "rus"]))
         rus = rus if keep == "rus" else "omit"
@@ -512,7 +521,11 @@ def _case(draw):
         if value != "omit":
             params[key] = value
     n = draw(st.integers(0, 8))
-    if profile == "any" or n == 0:
+    if profile == "long":
+        n = draw(st.integers(9, 36))
+        main = draw(st.sampled_from(["fail", "fail", "conn_timeout", "api408", "conn_error"]))
+        outcomes = [draw(_outcome(st.just(main if draw(st.integers(0, 7)) else draw(st.sampled_from(_RETRYABLE_HEAVY))))) for _ in range(n)]
+    elif profile == "any" or n == 0:
         outcomes = draw(st.lists(_outcome(st.sampled_from(CLASSES)), min_size=n, max_size=n))
     else:  # a run of (mostly) retryable outcomes, then anything
         head = draw(st.lists(_outcome(st.sampled_from(_RETRYABLE_HEAVY)), min_size=n - 1, max_size=n - 1))
